@@ -8,7 +8,9 @@
      type Query { a: Int  b(x: Int, l: [Int]): String  o: Obj  i: I  u: U  os: [Obj]  r(req: Int!): Int  d(nd: Int! = 1, nl: [Int!]): Int  is: [I] }
      type Obj implements I { a: Int  o: Obj  s: String  b(x: Int): String  c(p: Int = 1, q: Int = 5): Int }
      type Obj2 implements I { a: Int  s: Int!  n: String  c(p: Int = 2): Int }      interface I { a: Int  c(p: Int = 1): Int }
-     union U = Obj | Obj2     enum E { A B }        directives: @skip(if: Boolean!) @include(if: Boolean!) on fields, spreads, inline fragments
+     union U = Obj | Obj2     enum E { A B }     input In { x: Int = 3  y: Int!  n: In  l: [Int!] }     Query.f(in: In, ins: [In!]): Int
+     type Mutation { m(x: Int): Int  o: Obj }     type Subscription { s1: Int  s2(x: Int): Int  o: Obj }
+     directives: @skip(if: Boolean!) @include(if: Boolean!) on fields, spreads, inline fragments
    Document: [defs |-> seq of  [k |-> "op", name, op, vars (seq of [name, type, def: value | [k |-> "none"]]), sel]  |  [k |-> "frag", name, on, sel]]
    Selection: [k |-> "field", alias, name, args (seq of [name, value]), hasSel, sel, dirs] | [k |-> "inline", on, sel, dirs] | [k |-> "spread", name, dirs]
    dirs: seq of [name, args (seq of [name, value])];  value: [k |-> "int" | "bool" | "null" | "var" | "list" | "obj", ...] *)
@@ -23,18 +25,25 @@ Unwrap(t) == IF t.k = "named" THEN t.n ELSE Unwrap(t.of)
 F(n, t, args) == [name |-> n, type |-> t, args |-> args]
 A(n, t) == [name |-> n, type |-> t, hasDef |-> FALSE]
 D(n, t) == [name |-> n, type |-> t, hasDef |-> TRUE]
-Kind == [Query |-> "object", Obj |-> "object", Obj2 |-> "object", I |-> "interface", U |-> "union",
+Kind == [Query |-> "object", Mutation |-> "object", Subscription |-> "object", In |-> "input", Obj |-> "object", Obj2 |-> "object", I |-> "interface", U |-> "union",
          Int |-> "scalar", String |-> "scalar", Boolean |-> "scalar", ID |-> "scalar", Float |-> "scalar", E |-> "enum"]
 Fields == [Query |-> << F("a", Named("Int"), <<>>), F("b", Named("String"), <<A("x", Named("Int")), A("l", ListOf(Named("Int")))>>),
                         F("o", Named("Obj"), <<>>), F("i", Named("I"), <<>>), F("u", Named("U"), <<>>), F("os", ListOf(Named("Obj")), <<>>),
                         F("r", Named("Int"), <<A("req", NN(Named("Int")))>>),
-                        F("d", Named("Int"), <<D("nd", NN(Named("Int"))), A("nl", ListOf(NN(Named("Int"))))>>), F("is", ListOf(Named("I")), <<>>) >>,
+                        F("d", Named("Int"), <<D("nd", NN(Named("Int"))), A("nl", ListOf(NN(Named("Int"))))>>), F("is", ListOf(Named("I")), <<>>),
+                        F("f", Named("Int"), <<A("in", Named("In")), A("ins", ListOf(NN(Named("In"))))>>) >>,
+           Mutation |-> << F("m", Named("Int"), <<A("x", Named("Int"))>>), F("o", Named("Obj"), <<>>) >>,
+           Subscription |-> << F("s1", Named("Int"), <<>>), F("s2", Named("Int"), <<A("x", Named("Int"))>>), F("o", Named("Obj"), <<>>) >>,
+           In |-> <<>>,
            Obj   |-> << F("a", Named("Int"), <<>>), F("o", Named("Obj"), <<>>), F("s", Named("String"), <<>>), F("b", Named("String"), <<A("x", Named("Int"))>>),
                         F("c", Named("Int"), <<D("p", Named("Int")), D("q", Named("Int"))>>) >>,
            Obj2  |-> << F("a", Named("Int"), <<>>), F("s", NN(Named("Int")), <<>>), F("n", Named("String"), <<>>), F("c", Named("Int"), <<D("p", Named("Int"))>>) >>,
            I     |-> << F("a", Named("Int"), <<>>), F("c", Named("Int"), <<D("p", Named("Int"))>>) >>,
            U     |-> <<>>, Int |-> <<>>, String |-> <<>>, Boolean |-> <<>>, ID |-> <<>>, Float |-> <<>>, E |-> <<>>]
-Possible == [I |-> {"Obj", "Obj2"}, U |-> {"Obj", "Obj2"}, Query |-> {"Query"}, Obj |-> {"Obj"}, Obj2 |-> {"Obj2"}]
+Possible == [I |-> {"Obj", "Obj2"}, U |-> {"Obj", "Obj2"}, Query |-> {"Query"}, Mutation |-> {"Mutation"}, Subscription |-> {"Subscription"}, Obj |-> {"Obj"}, Obj2 |-> {"Obj2"}]
+InFields == << D("x", Named("Int")), A("y", NN(Named("Int"))), A("n", Named("In")), A("l", ListOf(NN(Named("Int")))) >>
+InField(n) == LET idx == {k \in 1..Len(InFields) : InFields[k].name = n}
+              IN IF idx = {} THEN [name |-> "", type |-> Named(""), hasDef |-> FALSE] ELSE InFields[CHOOSE k \in idx : TRUE]
 Known(t) == t \in DOMAIN Kind
 Composite(t) == Known(t) /\ Kind[t] \in {"object", "interface", "union"}
 Leaf(t) == Known(t) /\ Kind[t] \in {"scalar", "enum"}
@@ -55,7 +64,7 @@ Frags(doc) == SelectSeq(doc.defs, LAMBDA d : d.k = "frag")
 Ops(doc) == SelectSeq(doc.defs, LAMBDA d : d.k = "op")
 FragNames(doc) == {f.name : f \in Rng(Frags(doc))}
 Frag(doc, n) == LET fs == Frags(doc) IN fs[CHOOSE i \in 1..Len(fs) : fs[i].name = n /\ \A j \in 1..(i-1) : fs[j].name # n]   \* first with that name
-RootType(op) == IF op.op = "query" THEN "Query" ELSE ""
+RootType(op) == CASE op.op = "query" -> "Query" [] op.op = "mutation" -> "Mutation" [] op.op = "subscription" -> "Subscription" [] OTHER -> ""
 
 \* all (parentType, fieldNode) pairs reachable syntactically inside a selection list (not through spreads)
 RECURSIVE FieldsIn(_, _)
@@ -171,7 +180,7 @@ AllConds(doc) == UNION {CondsIn(doc.defs[i].sel) \cup (IF doc.defs[i].k = "frag"
 VarTypes(doc) == UNION {{Unwrap(vd.type) : vd \in Rng(op.vars)} : op \in Rng(Ops(doc))}
 R_KnownTypeNames(doc) == \A t \in AllConds(doc) \cup VarTypes(doc) : Known(t)
 R_FragmentsOnCompositeTypes(doc) == \A t \in AllConds(doc) : Known(t) => Composite(t)
-InputType(t) == Known(t) /\ Kind[t] \in {"scalar", "enum"}
+InputType(t) == Known(t) /\ Kind[t] \in {"scalar", "enum", "input"}
 R_VariablesAreInputTypes(doc) == \A t \in VarTypes(doc) : Known(t) => InputType(t)
 R_UniqueVariableNames(doc) == \A op \in Rng(Ops(doc)) : NoDup([j \in 1..Len(op.vars) |-> op.vars[j].name])
 \* fragment spreads must be possible: the type condition and the parent type share a possible object type
@@ -214,6 +223,10 @@ ValidValue(v, t) ==
   ELSE IF v.k = "null" THEN TRUE
   ELSE IF t.k = "list" THEN (IF v.k = "list" THEN \A i \in 1..Len(v.vs) : ValidValue(v.vs[i], t.of) ELSE ValidValue(v, t.of))
   ELSE IF ~Known(t.n) THEN TRUE
+  ELSE IF t.n = "In" THEN
+       /\ v.k = "obj"
+       /\ \A f \in Rng(v.fs) : InField(f.key).name # "" /\ ValidValue(f.val, InField(f.key).type)
+       /\ \A d \in Rng(InFields) : (d.type.k = "nn" /\ ~d.hasDef) => \E f \in Rng(v.fs) : f.key = d.name
   ELSE IF t.n = "Int" THEN v.k = "int"
   ELSE IF t.n = "String" THEN v.k = "str"
   ELSE IF t.n = "Boolean" THEN v.k = "bool"
@@ -237,6 +250,11 @@ UsagesInValue(v, t, locDef) ==
   CASE v.k = "var" -> <<[n |-> v.n, t |-> t, locDef |-> locDef]>>
     [] v.k = "list" -> FlattenSeq([i \in 1..Len(v.vs) |->
                           UsagesInValue(v.vs[i], IF t.k = "nn" /\ t.of.k = "list" THEN t.of.of ELSE IF t.k = "list" THEN t.of ELSE Named(""), FALSE)])
+    [] v.k = "obj" -> LET nt == IF t.k = "nn" THEN t.of ELSE t IN
+                      IF nt.k = "named" /\ nt.n = "In"
+                      THEN FlattenSeq([i \in 1..Len(v.fs) |-> LET fd == InField(v.fs[i].key) IN
+                                         IF fd.name = "" THEN <<>> ELSE UsagesInValue(v.fs[i].val, fd.type, fd.hasDef)])
+                      ELSE <<>>
     [] OTHER -> <<>>
 DirUsages(dirs) == FlattenSeq([d \in 1..Len(dirs) |->
      IF ~KnownDir(dirs[d].name) THEN <<>>
@@ -320,7 +338,22 @@ Shape(doc, sel, objType, conc, fuel) ==
            ELSE [key |-> key, kind |-> "obj", amb |-> amb, sub |-> Shape(doc, subsel, rt, conc, fuel - 1), sub2 |-> <<>>]]
 Shapes(doc) == IF ~R_NoFragmentCycles(doc) THEN <<>>
                ELSE LET os == Ops(doc) IN
-                    [i \in 1..Len(os) |-> [name |-> os[i].name, Obj |-> Shape(doc, os[i].sel, "Query", "Obj", 8), Obj2 |-> Shape(doc, os[i].sel, "Query", "Obj2", 8)]]
+                    [i \in 1..Len(os) |-> [name |-> os[i].name, Obj |-> Shape(doc, os[i].sel, RootType(os[i]), "Obj", 8), Obj2 |-> Shape(doc, os[i].sel, RootType(os[i]), "Obj2", 8)]]
+
+\* ---- input object literals: 5.6.3 Input Object Field Uniqueness -------------------------------------------------------------------
+RECURSIVE ObjsIn(_)
+ObjsIn(v) == CASE v.k = "obj" -> <<v>> \o FlattenSeq([i \in 1..Len(v.fs) |-> ObjsIn(v.fs[i].val)])
+               [] v.k = "list" -> FlattenSeq([i \in 1..Len(v.vs) |-> ObjsIn(v.vs[i])])
+               [] OTHER -> <<>>
+ArgObjs(args) == FlattenSeq([j \in 1..Len(args) |-> ObjsIn(args[j].value)])
+AllObjs(doc) == LET ns == AllNodes(doc)  os == Ops(doc) IN
+    FlattenSeq([i \in 1..Len(ns) |-> (IF ns[i].k = "field" THEN ArgObjs(ns[i].args) ELSE <<>>)
+                                       \o FlattenSeq([d \in 1..Len(ns[i].dirs) |-> ArgObjs(ns[i].dirs[d].args)])])
+    \o FlattenSeq([i \in 1..Len(os) |-> FlattenSeq([j \in 1..Len(os[i].vars) |-> IF os[i].vars[j].def.k = "none" THEN <<>> ELSE ObjsIn(os[i].vars[j].def)])])
+R_UniqueInputFieldNames(doc) == \A o \in Rng(AllObjs(doc)) : NoDup([j \in 1..Len(o.fs) |-> o.fs[j].key])
+\* ---- 5.2.3.1 Single root field: CollectFields of a subscription's selection set yields exactly one response key -----------------
+R_SingleFieldSubscriptions(doc) == \A op \in Rng(Ops(doc)) : op.op = "subscription" =>
+    Cardinality({RKey(f) : f \in Rng(CollectF(doc, op.sel, "Subscription", 8))}) = 1
 
 Verdict(doc) == [FieldsOnCorrectTypeChecker |-> R_FieldsOnCorrectType(doc), ScalarLeafsChecker |-> R_ScalarLeafs(doc),
                  NoFragmentCyclesChecker |-> R_NoFragmentCycles(doc), NoUndefinedVariablesChecker |-> R_NoUndefinedVariables(doc),
@@ -333,7 +366,8 @@ Verdict(doc) == [FieldsOnCorrectTypeChecker |-> R_FieldsOnCorrectType(doc), Scal
                  KnownArgumentNamesChecker |-> R_KnownArgumentNames(doc), UniqueArgumentNamesChecker |-> R_UniqueArgumentNames(doc),
                  ProvidedRequiredArgumentsChecker |-> R_ProvidedRequiredArguments(doc),
                  ValuesOfCorrectTypeChecker |-> R_ValuesOfCorrectType(doc), VariablesInAllowedPositionChecker |-> R_VariablesInAllowedPosition(doc),
-                 KnownDirectivesChecker |-> R_KnownDirectives(doc), UniqueDirectivesPerLocationChecker |-> R_UniqueDirectivesPerLocation(doc)]
+                 KnownDirectivesChecker |-> R_KnownDirectives(doc), UniqueDirectivesPerLocationChecker |-> R_UniqueDirectivesPerLocation(doc),
+                 UniqueInputFieldNamesChecker |-> R_UniqueInputFieldNames(doc), SingleFieldSubscriptionsChecker |-> R_SingleFieldSubscriptions(doc)]
 VARIABLE i
 Init == i \in 1..Len(Cases)
 Next == FALSE /\ UNCHANGED i
